@@ -193,13 +193,23 @@ pub fn replay_print(rep: &mut Report, rec: &J) {
 	let preset = rec["preset"].as_str().unwrap_or("");
 	let is_compact = preset == "compact";
 	if !preset.is_empty() {
-		let (made, by_method) = match preset {
+		let aspect = if is_compact { "C08.compact" } else { "C13.layout" };
+		let (made, by_method) = match guarded(|| match preset {
 			"compact" => (Options::compact(), v.compact_print().to_string()),
 			"pretty" => (Options::pretty(), v.pretty_print().to_string()),
 			_ => (Options::inline(), v.inline_print().to_string()),
+		}) {
+			Ok(x) => x,
+			Err(p) => {
+				rep.mismatch("C13.panic", json!({"what": format!("{preset}_print() panicked"), "vector": rec, "panic": p}));
+				rep.mismatch("C04.panic", json!({"what": format!("{preset}_print() panicked"), "vector": rec, "panic": p}));
+				if is_compact {
+					rep.mismatch("C08.compact", json!({"what": "compact_print() panicked", "vector": rec, "panic": p}));
+				}
+				return;
+			}
 		};
 		rep.add("print_calls", 1);
-		let aspect = if is_compact { "C08.compact" } else { "C13.layout" };
 		if options_j(&made) != options_j(&o) {
 			rep.mismatch(aspect, json!({"what": format!("Options::{preset}() is not the documented preset"), "vector": rec, "documented": options_j(&o), "observed": options_j(&made)}));
 		}
@@ -220,6 +230,9 @@ pub fn replay_print(rep: &mut Report, rec: &J) {
 		Err(p) => {
 			rep.mismatch("C13.panic", json!({"what": "printer panicked", "vector": rec, "panic": p}));
 			rep.mismatch("C04.panic", json!({"what": "printer panicked", "vector": rec, "panic": p}));
+			if is_compact {
+				rep.mismatch("C08.compact", json!({"what": "compact printing panicked (no output at all)", "vector": rec, "panic": p}));
+			}
 			return;
 		}
 	};
